@@ -948,7 +948,7 @@ func (e *CEnv) bcat(a, b *Term) *Term {
 	body := Eq(Select(c, i), Ite(And(Le(IntLit(0), i), Lt(i, la)), Select(e.bArr(a), i),
 		Ite(And(Le(la, i), Lt(i, Add(la, lb))), Select(e.bArr(b), Sub(i, la)), zeroOfSort(es))))
 	ax := Forall([]*Term{i}, body, mk("select", es, c, i))
-	wi := &winInfo{c: c, axiom: ax, kind: "len|" + Add(la, lb).String()}
+	wi := &winInfo{c: c, axiom: ax, kind: "len|" + e.st.normInt(Add(la, lb)).String()}
 	v.windows[key] = wi
 	e.st.pc = append(e.st.pc, ax)
 	v.extLemmas(e.st, wi)
